@@ -60,8 +60,11 @@ SelsC17 == <<".a", ".a-b", "#i", ".a .b", ".a > #i", "#i.a", ".a\\31", ".a\\31 b
 PoolC17 == [i \in DOMAIN SelsC17 |-> HideR({}, SelsC17[i])]
      \o << UnhideR({H("a.com")}, ".a"), UnhideR({H("a.com")}, ".a .b"), HideR({NH("a.com")}, ".ng"), HideR({NH("a.com")}, "ng2") >>
 HostsC17 == <<"a.com", "b.com">>
-ClassSets == << {"a"}, {"a-b", "ab"}, {"a1", "a.b"}, {"é", "aé"}, {"A", "-a", "_"}, {"ng"}, {"a1b", "ab"}, {"x:y", "x:"}, {} >>
-IdSets == << {"i"}, {"a"}, {":z"}, {} >>
+ClassSetsStd == << {"a"}, {"a-b", "ab"}, {"a1", "a.b"}, {"é", "aé"}, {"A", "-a", "_"}, {"ng"}, {"a1b", "ab"}, {"x:y", "x:"}, {} >>
+IdSetsStd == << {"i"}, {"a"}, {":z"}, {} >>
+\* the parse universe uses the selectors '.x' and '#id > .x'
+ClassSets == IF U = "parse" THEN << {"x"}, {} >> ELSE ClassSetsStd
+IdSets == IF U = "parse" THEN << {"id"}, {} >> ELSE IdSetsStd
 \* c17b: several complex rules sharing one leading class / id, with exceptions naming some of them
 PoolC17b == << HideR({}, ".a .b"), HideR({}, ".a > #i"), HideR({}, ".a:hover"), HideR({}, ".a"), HideR({}, "#i .q"), HideR({}, "#i > .a"),
                HideR({}, "#i"), UnhideR({H("a.com")}, ".a > #i"), UnhideR({H("a.com")}, ".a .b"), UnhideR({H("a.com")}, "#i .q"),
@@ -141,7 +144,7 @@ HostView(h) ==
    scripts_union |-> ScriptsUnion(L, Store, h),
    scripts_wire |-> Scripts([i \in DOMAIN L |-> [L[i] EXCEPT !.perm = {}]], Store, h),
    \* C17: lookups with the page's own exception set
-   classid |-> IF U \in {"c17", "c17b"}
+   classid |-> IF U \in {"c17", "c17b", "parse"}
                THEN [c \in DOMAIN ClassSets |-> [i \in DOMAIN IdSets |->
                        [classes |-> ClassSets[c], ids |-> IdSets[i],
                         expect |-> ClassIdLookup(L, ClassSets[c], IdSets[i], ex)]]]
